@@ -130,6 +130,11 @@ impl History {
         };
         let sel = auth_selection(self.v, &e).unwrap_or_default();
         e.auth_events = sel.iter().filter_map(|k| state.get(k).cloned()).collect();
+        // `auth_events` is a set: lower-case base kinds list it in the opposite order (power levels before
+        // the create event) in every event of the history
+        if self.base_kind.is_ascii_lowercase() {
+            e.auth_events.reverse();
+        }
         e
     }
 
@@ -155,12 +160,17 @@ impl History {
     /// `create_sender` other than the creator is only meaningful before room version 11, where the
     /// creator is `content.creator` (still C) and need not be the sender of the create event.
     pub fn base_with_create_sender(v: u8, with_power_levels: bool, create_sender: &'static str) -> History {
+        History::base_full(v, with_power_levels, create_sender, false)
+    }
+
+    fn base_full(v: u8, with_power_levels: bool, create_sender: &'static str, reversed_auth: bool) -> History {
+        let kind = if with_power_levels { 'A' } else { 'B' };
         let mut h = History {
             v,
             store: Store::default(),
             nodes: vec![],
             base_len: 0,
-            base_kind: if with_power_levels { 'A' } else { 'B' },
+            base_kind: if reversed_auth { kind.to_ascii_lowercase() } else { kind },
             trail: vec![],
         };
         let mut create_content = json!({"room_version": v.to_string()});
@@ -199,6 +209,14 @@ impl History {
         match kind {
             'A' => History::base(v, true),
             'B' => History::base(v, false),
+            // a / b / d / e: the same rooms with every `auth_events` list in the opposite order
+            'a' => History::base_full(v, true, C, true),
+            'b' => History::base_full(v, false, C, true),
+            'd' | 'e' => {
+                let mut h = History::base_full(v, kind == 'd', M, true);
+                h.base_kind = kind;
+                h
+            }
             // D / E: rooms A / B whose create event was *sent* by M while `content.creator` is C
             // (legal before v11): "the creator" and "the sender of the create event" differ
             'D' | 'E' => {
@@ -314,7 +332,7 @@ impl History {
         // node 0 = the state right after the create event: its auth chain is empty, so merging it
         // puts the create event itself into the auth difference
         // (rooms D / E only: elsewhere it would only multiply the subsets)
-        let mut v = if matches!(self.base_kind, 'D' | 'E') { vec![0, self.base_len - 3] } else { vec![self.base_len - 3] };
+        let mut v = if matches!(self.base_kind, 'D' | 'E' | 'd' | 'e') { vec![0, self.base_len - 3] } else { vec![self.base_len - 3] };
         v.extend(self.base_len - 1..self.nodes.len());
         v
     }
